@@ -29,7 +29,7 @@ RULE = (
     "(A) all expression trees with <=4 leaves (test or comparison atoms on independent members) "
     "x operator assignments x negation subsets x 2 parenthesisation styles, on an 81-child "
     "truth-table document; (B) corpus queries, all slice shapes, names/literals over BMP + special "
-    "characters, number spellings; for each: str() valid, reparse idempotent, same nodes, "
+    "characters and over query-syntax characters ($ @ . [ ] ( ) ? ...) in 7 syntactic positions, number spellings, the C02 unit corpus plus 17 nested-filter / root-query atoms in one- and two-unit expressions; for each: str() valid, reparse idempotent, same nodes, "
     "canonical literals; distinct by construction; non-trivial = query contains a filter, a "
     "string literal or a slice"
 )
@@ -196,6 +196,9 @@ def check_roundtrip(q, docs, with_ref=True):
 def docs_for(q, hint):
     if hint == "tt":
         return [truth_doc()]
+    if hint == "c02":
+        from mc.checks import c02
+        return [c02.arr_doc(), c02.obj_doc(), {"a": 1, "x": 2, "b": [{"a": 1, "b": "b"}, 1, {"$": "$", "@": "$"}]}]
     return GENERIC
 
 
@@ -268,12 +271,21 @@ def cps(tier):
 
 
 SPECIAL = ["'", '"', "\\", "/", "\x00", "\x08", "\x0b", "\x1f", " ", "\x7f", "\x80", "\U0001F600", "a"]
+SYNTAX_CHARS = list("$@.[]()?*,:!&|=<>-+#%{}") + ["&&", "||", "==", "$.", "@.", "..", "[?", "$[", "@["]
+NESTED_ATOMS = [
+    "@[?$.a]", "@[?@.a == $.a]", "@.b[?$.x]", "@[?$[0]]", "@[?@ == $.a]", "count(@[?$.a]) == 1", "@[?@[?$.a]]",
+    "$[?@.a]", "$.a[?@ == $.a]", "@..[?@.a == $.a]", "@[?count($.*) > 1]", "@[?match(@.b, 'b') || $.a]",
+    "value(@[?@.a == $.a]) == 1", "@['$ref']", "@['@']", "@['$'] == '$'", "@[?@['$'] == $['@']]",
+]
 
 
 def shards(tier):
     out = [{"space": "bool", "n": n, "tree": i, "ops": o, "tier": tier} for n in range(1, 5)
            for i in range(len(trees(n))) for o in range(2 ** (n - 1))]
-    out += [{"space": "corpus"}, {"space": "slices"}, {"space": "numbers"}, {"space": "special"}]
+    out += [{"space": "corpus"}, {"space": "slices"}, {"space": "numbers"}, {"space": "special"},
+            {"space": "syntaxchars"}]
+    from mc.checks import c02
+    out += [{"space": "nested", "i": i} for i in range(len(NESTED_ATOMS) + len(c02.U_ALL))]
     cp = cps(tier)
     step = 2048
     out += [{"space": "names", "lo": lo, "hi": min(lo + step, len(cp)), "tier": tier} for lo in range(0, len(cp), step)]
@@ -337,6 +349,47 @@ def run_shard(desc):
                 do(f"$[{lit}]", special={name: 1, "x": 2})
                 if k < 3:
                     do(f"$[?@ == {lit} || @.k == {lit}]", special=[name, {"k": name}, "x"])
+    elif sp == "syntaxchars":
+        # names / literals made of characters that mean something in the query syntax, in every
+        # position where a name or literal can occur (top-level, relative query, root query in a
+        # filter, nested filter, function argument)
+        for k in (1, 2):
+            for combo in itertools.product(SYNTAX_CHARS, repeat=k):
+                name = "x".join(combo) if k == 2 else combo[0]
+                lit = rpaths.render_name(name)
+                d = {name: 1, "k": {name: 2}, "l": [{name: 1}, {name: 3}, name]}
+                do(f"$[{lit}]", special=d)
+                do(f"$.l[?@[{lit}]]", special=d)
+                do(f"$.l[?@[{lit}] == $[{lit}]]", special=d)
+                do(f"$.l[?@ == {lit}]", special=d)
+                do(f"$[?@[?@[{lit}] == 3]]", special=d)
+                do(f"$.l[?count(@[{lit}]) == 1]", special=d)
+                do(f"$.l[?$.k[{lit}] == 2]", special=d)
+    elif sp == "nested":
+        from mc.checks import c02
+        units = list(NESTED_ATOMS) + list(c02.U_ALL)
+        u1 = units[desc["i"]]
+        docs = [c02.arr_doc(), c02.obj_doc(), {"a": 1, "x": 2, "b": [{"a": 1, "b": "b"}, 1, {"$": "$", "@": "$"}]}]
+
+        def run(e):
+            q = f"$[?{e}]"
+            if diff.ast_of(q).cls != "valid":
+                return
+            sh.states += 1
+            sh.transitions += 3
+            sh.traces += 1
+            sh.evaluations += 1
+            sh.nontrivial += 1
+            bad = check_roundtrip(q, docs, with_ref=False)
+            if bad:
+                sh.violation(violation(bad[0], {"query": q, "docs": "c02"}, bad[1], bad[2], "roundtrip"))
+
+        run(u1)
+        run(f"!({u1})")
+        for u2 in NESTED_ATOMS + c02.U_SMALL:
+            for op in ("&&", "||"):
+                run(f"{u1} {op} {u2}")
+                run(f"!({u1} {op} {u2}) {op} {u2}")
     else:
         for q, doc in name_queries(cps(desc["tier"])[desc["lo"]:desc["hi"]]):
             do(q, special=doc)
